@@ -90,6 +90,10 @@ class World:
                 return False
             self.areg(n).unsubscribe([self.R], self.P, 'S' + n)
             self.subs.remove(n)
+        elif t == 'rebuild':
+            if self.kind == 'components':
+                return False
+            self.reg[n].rebuild()
         elif t == 'look':
             r = self.areg(n)
             r.lookup([self.R1], self.P)
@@ -244,6 +248,8 @@ def all_ops(cfg):
             for bs in itertools.permutations(others, k):
                 ops.append(('bases', n, bs))
         ops += [('reg', n), ('unreg', n), ('sub', n), ('unsub', n), ('look', n)]
+        if cfg.get('kind') != 'components':
+            ops.append(('rebuild', n))
         if cfg.get('pair'):
             ops += [('reg2', n), ('unreg2', n)]
     return ops
